@@ -32,6 +32,7 @@ type Machine struct {
 	overrides map[string]Func
 	ovrUsed   map[string]int
 	allocBudget *Int
+	maxAlloc    *Int
 	allowPanics bool
 	curPanic  *goPanic
 	locks     map[*Cell]*lockState
